@@ -110,6 +110,16 @@ Lemma gen_tversky_c2w_ok (al be eps : K) :
       (Some ([[[w0; w1]]], [1; 2]%nat)).
 Proof. fcbv. apply f_equal. list_eq; div_congr. Qed.
 
+(* one-channel input with a weight; tversky_loss with and without the focal exponent *)
+Lemma gen_tversky_loss_ok (al be eps : K) :
+  gen_tversky_w al be eps X Y W = [tversky_index al be eps X Y (Some W)] /\
+  gen_tversky_loss_w al be eps X Y W = [tversky_loss 0 al be eps X Y (Some W)] /\
+  gen_tversky_loss_g1 al be eps X Y = [tversky_loss 1 al be eps X Y None] /\
+  gen_tversky_loss_g3 al be eps X Y = [tversky_loss 3 al be eps X Y None] /\
+  Some (gen_tversky_loss_mean al be eps X Y)
+  = b_overlap (tversky_loss 0 al be eps) RMean [[[x0; x1]; [x2; x3]]] [[[y0; y1]; [y2; y3]]] None.
+Proof. repeat split; try gen_tac. fcbv. apply f_equal. list_eq; div_congr. Qed.
+
 (* ---- global correlation ---------------------------------------------------------------------------- *)
 Lemma gen_ncc_ok (eps : K) : gen_ncc eps X Y = [ncc_one eps X Y].
 Proof. gen_tac. Qed.
